@@ -179,6 +179,38 @@ const VERSION_STRINGS: &[&str] = &[
     "v2beta0", "v0beta0", "", "latest", "1", "v1", "beta0", "v1-beta0", "v1_beta0", "v1beta0\u{0}", "ｖ1beta0", "v1alpha8 ", "v1gamma0", "v1beta-0",
 ];
 
+/// Offsets and major types of the heads of every byte string, text string, array and map of a well-formed
+/// encoding (empty when it is not well formed).
+fn heads(bytes: &[u8]) -> Vec<(usize, u8)> {
+    use crate::decode::cbor::{decode_all, Node, C};
+    fn walk(n: &Node, out: &mut Vec<(usize, u8)>) {
+        match &n.v {
+            C::Bytes(..) => out.push((n.start, 2)),
+            C::Text(..) => out.push((n.start, 3)),
+            C::Array(items, _) => {
+                out.push((n.start, 4));
+                for i in items {
+                    walk(i, out);
+                }
+            }
+            C::Map(entries, _) => {
+                out.push((n.start, 5));
+                for (k, v) in entries {
+                    walk(k, out);
+                    walk(v, out);
+                }
+            }
+            C::Tag(_, inner) => walk(inner, out),
+            _ => {}
+        }
+    }
+    let mut out = vec![];
+    if let Ok(root) = decode_all(bytes) {
+        walk(&root, &mut out);
+    }
+    out
+}
+
 impl C11 {
     fn hostile(&self, ctx: &mut Ctx, idx: u64, rng: &mut Rng) {
         // base encodings
@@ -214,6 +246,31 @@ impl C11 {
                 let other = to_bytes(&gen.tx(rng)).0;
                 let mut b = base[..rng.usize(base.len() + 1)].to_vec();
                 b.extend_from_slice(&other[rng.usize(other.len() + 1)..]);
+                b
+            }
+            4 if idx % 3 != 0 => {
+                // length-prefix lies at the heads of the encoding's own strings, arrays and maps (located with
+                // the independent CBOR reader): the item keeps its major type and announces a huge length
+                let mut b = base.clone();
+                let hs = heads(&b);
+                if !hs.is_empty() {
+                    let (at, major) = *rng.pick(&hs);
+                    let head_len = 1 + match b[at] & 0x1f {
+                        24 => 1,
+                        25 => 2,
+                        26 => 4,
+                        27 => 8,
+                        _ => 0,
+                    };
+                    let lie: Vec<u8> = match rng.below(5) {
+                        0 => vec![(major << 5) | 25, 0xff, 0xff],
+                        1 => [vec![(major << 5) | 26], 0xffff_ffffu32.to_be_bytes().to_vec()].concat(),
+                        2 => [vec![(major << 5) | 26], (0x0100_0000u32 << rng.below(7)).to_be_bytes().to_vec()].concat(),
+                        _ => [vec![(major << 5) | 27], (u64::MAX >> rng.below(40)).to_be_bytes().to_vec()].concat(),
+                    };
+                    ctx.count(&format!("length-lie/major-{major}"));
+                    b.splice(at..at + head_len, lie);
+                }
                 b
             }
             4 => {
@@ -419,7 +476,7 @@ impl Property for C11 {
     }
 
     fn rule(&self) -> String {
-        "trees: random tir::Tx values (every Expression / Param / BuiltInOp / CompilerOp / Coerce / ScriptSource-free block variant, depth <= 6, ints over the i128 boundary set, usize::MAX constructors, byte strings 0..3000, UTxO sets with datums); lowered: every tx of every example program and of generated programs; hostile: 12 mutation kinds of valid encodings (random, bit flips, truncation, splice, length lies, nesting bombs to 1e5, valid deep lists to 1000, 11 kinds of expression wrapper nested 50..100000 deep in a typed position (raw bytes) - all nested inputs decoded on a 2 MiB thread, and once more by an unoptimised (dev-profile) probe binary on a 2 MiB thread, overwrites, duplications, bad utf-8, wrong major types, foreign values); versions: fixed list + random near-misses of 'v1beta0' + names of 31..70000 bytes mixing 1/2/3/4-byte characters with byte lengths on and around powers of two, direct and through TirEnvelope. Non-trivial: a tree whose serialisation uses >= 6 distinct IR variants / a distinct hostile byte string / a distinct version string.".into()
+        "trees: random tir::Tx values (every Expression / Param / BuiltInOp / CompilerOp / Coerce / ScriptSource-free block variant, depth <= 6, ints over the i128 boundary set, usize::MAX constructors, byte strings 0..3000, UTxO sets with datums); lowered: every tx of every example program and of generated programs; hostile: 12 mutation kinds of valid encodings (random, bit flips, truncation, splice, length lies (at random offsets and at the head of every string / array / map of the encoding, located with the independent CBOR reader), nesting bombs to 1e5, valid deep lists to 1000, 11 kinds of expression wrapper nested 50..100000 deep in a typed position (raw bytes) - all nested inputs decoded on a 2 MiB thread, and once more by an unoptimised (dev-profile) probe binary on a 2 MiB thread, overwrites, duplications, bad utf-8, wrong major types, foreign values); versions: fixed list + random near-misses of 'v1beta0' + names of 31..70000 bytes mixing 1/2/3/4-byte characters with byte lengths on and around powers of two, direct and through TirEnvelope. Non-trivial: a tree whose serialisation uses >= 6 distinct IR variants / a distinct hostile byte string / a distinct version string.".into()
     }
 
     fn assumptions(&self) -> Vec<String> {
@@ -469,6 +526,8 @@ impl Property for C11 {
         v.push("hostile/err".into());
         v.push("versions/rejected".into());
         v.push("versions/long-mixed-width".into());
+        v.push("length-lie/major-5".into());
+        v.push("length-lie/major-4".into());
         v.push("versions/accepted-current".into());
         v
     }
